@@ -119,7 +119,7 @@ func TestSim(t *testing.T) {
 		for _, v := range rr.Violations {
 			sig := v.Sig()
 			res.SigCounts[sig]++
-			if minimised[sig] {
+			if minimised[sig] || len(minimised) >= 8 {
 				continue
 			}
 			minimised[sig] = true
